@@ -4,6 +4,7 @@ z measured from a reference surface at distance d from the mid-plane (z in [d-h/
 Functions under contract:
   panel/models/{plate,plate_w,cpanel,kpanel}*.pyx : fkM, fkMy1y2
   panel/_panel.py : Panel.calc_kM (argument pass-through: offset, sub-interval, size)
+  stiffener/models/bladestiff1d_clt_donnell_bardell.pyx : fkMf;  stiffener/bladestiff1d.py : BladeStiff1D.calc_kM
 """
 import sys
 
@@ -36,6 +37,11 @@ def body(led):
         for fname, y in (('fkM', False), ('fkMy1y2', True)):
             run_mass(led, model, fname, y)
     py_panel.check_calc_kM(led, replay=replays.panel_matrix('kM', 'plate', False))
+    # the flange of the 1-D blade stiffener (the fifth anchor): kernel fkMf against the kinetic energy of the flange strip, and what
+    # BladeStiff1D.calc_kM passes to it (the skin thickness h is the mean of the two neighbouring skins)
+    from . import c13_stiffk, py_stiffeners
+    c13_stiffk.check_blade1d(led, only=('fkMf',))
+    py_stiffeners.check_bladestiff1d(led, which=('kM',))
     ok, _ = K.compare(real('mu') * 2, real('mu'))
     led.canary('2*mu vs mu', not ok)
 
